@@ -1968,6 +1968,14 @@ func (c *DefaultCtx) Reset(fctx *fasthttp.RequestCtx) {
 	c.methodInt = c.app.methodInt(utils.UnsafeString(fctx.Request.Header.Method()))
 	// Attach *fasthttp.RequestCtx to ctx
 	c.fasthttp = fctx
+	// The Req()/Res() views answer for this context: a DefaultCtx embedded by value in a custom context
+	// is a copy of the one NewDefaultCtx built, its views still pointed at the original
+	if c.req == nil || c.req.ctx != c {
+		c.req = &DefaultReq{ctx: c}
+	}
+	if c.res == nil || c.res.ctx != c {
+		c.res = &DefaultRes{ctx: c}
+	}
 	// reset base uri
 	c.baseURI = ""
 	// Prettify path
